@@ -14,6 +14,10 @@ CHECKS = {
          "Exploration: ~1.5M programs x 6 inputs per build (quick) plus every skip_until set of <= 3 short strings on every short input; position, token queue, stack, look-ahead and atomicity are compared after each of the program's operations, and the final pest::state result at the end.",
          "Trusts the model in harness/pv/src/c03.rs (where rustdoc is silent it mirrors the code; listed in the evidence assumptions). The no-memchr build is a separate cargo package/target dir so feature unification cannot re-enable memchr.",
          "DESIGN.md section 4, C03"),
+ "C04": ("model-based testing of every Pairs/Pair/FlatPairs/Tokens view against a plain tree and VecDeque models, over by-construction trees (PairsBuilder) and real VM parses, with generated observation scripts",
+         "Exploration: 150k built trees + ~70k parsed trees (quick), each observed through ~20 static views and a generated script of <= 30 iterator steps on three iterators and on Pairs::single; JSON output parsed back and compared structurally.",
+         "Trusts the tree/deque model in harness/pv/src/c04.rs. Tag placement of parsed trees is only cross-checked between views.",
+         "DESIGN.md section 4, C04"),
  "C05": ("metamorphic per-pass equivalence under an independent reference evaluator, exhaustive over all short inputs per generated grammar; restorer checked differentially against the real VM",
          "Exploration: ~100k generated grammars per configuration (rules shaped like each pass's pattern), each pass applied alone through the cfg hook, before/after compared on every string of length <= 3 (<= 4 thorough) over the grammar's alphabet for every start rule: outcome, end, tokens, final stack. Bounded-exhaustive per grammar, sampled over grammars.",
          "Trusts refsem.rs on both sides of each comparison (C01 ties it to the VM). Node tags are not compared (placement undocumented). Open finding D7 (lister) is recognised by an exact signature: the pass output equals the documented (x~y)*~x rewrite.",
